@@ -289,12 +289,8 @@ func (e *specEnv) evalBinary(n *EBinary) sv {
 	switch n.Op {
 	case "==", "!=":
 		a, b = e.unify(a, b)
-		var r string
-		if isF64T(a.ty) {
-			r = app("f64_eq", a.t, b.t)
-		} else {
-			r = eq(a.t, b.t)
-		}
+		// on float64, spec == is identity of the value (bit pattern); Go's == is feq(x, y)
+		r := eq(a.t, b.t)
 		if n.Op == "!=" {
 			r = not(r)
 		}
@@ -459,6 +455,16 @@ func (e *specEnv) evalCall(n *ECall) sv {
 	case "bigval":
 		need(1)
 		return sv{sel(c.bigHeap(), args()[0].t), tInt}
+	case "feq":
+		need(2)
+		as := args()
+		return sv{app("f64_eq", as[0].t, as[1].t), tBool}
+	case "pubval":
+		need(1)
+		return sv{app("pubval", args()[0].t), tInt}
+	case "float64":
+		need(1)
+		return sv{app("f64_of_int", args()[0].t), tF64}
 	case "ediv":
 		need(2)
 		as := args()
@@ -470,10 +476,13 @@ func (e *specEnv) evalCall(n *ECall) sv {
 			ts[i] = as[i].t
 		}
 		return sv{app(n.Fun, ts...), tInt}
-	case "rwidth", "rdecode":
+	case "rwidth", "rdecode", "ridx":
 		need(2)
 		as := args()
 		return sv{app(n.Fun, as[0].t, as[1].t), tInt}
+	case "rcount":
+		need(1)
+		return sv{app("rcount", args()[0].t), tInt}
 	case "arr", "off":
 		need(1)
 		a := args()[0]
